@@ -186,3 +186,4 @@ func vUFTable(name string, table []uint32) {}
 func vFSYield(on bool)            {}
 func vRecordIO(on bool) {}
 func vIOLog() []uint64  { return nil }
+func vSchedBlockFixed(on bool)   {}
